@@ -314,6 +314,7 @@ def build_bytes_from_sse(event: ServerSentEvent, charset: str) -> bytes:
     helper function for SendEventResponse
     """
     data: Iterable[bytes]
+    event = event.copy()  # the producer may yield the same dict again
     if "data" in event:
         data = (
             f"data: {_}".encode(charset) for _ in split_sse_lines(event.pop("data"))
